@@ -1085,3 +1085,126 @@ _c05_prev4 = harnesses
 
 def harnesses(tier):   # noqa: F811
     return _c05_prev4(tier) + [DigitPrinterCompanion([10] if tier == 'quick' else [2, 10, 16])]
+
+
+# --------------------------------------------------------------------------------------------------------------
+# The wrappers between the digit printer and a reply: Number::numeric_value and Number::to_parts_digits must hand the
+# printer's verdict on unchanged (a numeral in the exact slot is one the printer called exact, in the base that was asked
+# for) and must keep the value itself in `raw_value` - `ans`, JSON consumers and unit lists read it from there.
+
+def _stub_string_repr(ex, nc, args):
+    k = ex.env['printer_verdict']
+    ex.env['printer_args'] = (args[1], deref_all(args[2]))
+    e = some(ex, 'PRINTER-EXACT') if k in (0, 2) else none(ex)
+    a = some(ex, 'PRINTER-APPROX') if k in (1, 2) else none(ex)
+    return Tup([e, a])
+
+
+def _stub_same_number(ex, nc, args):
+    return dup(deref_all(args[0]))
+
+
+class PartsCarryValue(Harness):
+    name = 'number.to_parts_digits.carries_value_and_markers'
+    props = ('C05', 'C15', 'C06')
+    entry = 'types::number::Number::to_parts_digits'
+    loop_bound = 12
+    _concrete = None
+    describe = ('Number::to_parts_digits (and numeric_value inside it) on an arbitrary rational or float - NaN and the infinities included - for '
+                'bases 10 / 16 / 7 and two digit modes, with the digit printer replaced by an arbitrary verdict: the exact and approximate slots of '
+                'the reply are the printer\'s, asked in the requested base and mode, and raw_value is the number itself')
+    stubs = ((r'^Numeric::string_repr$', _stub_string_repr, 'Numeric::string_repr -> an arbitrary (exact?, approx?) pair, arguments recorded'),
+             (r'^Number::(prettify|with_pretty_unit)$', _stub_same_number, 'Number::prettify / with_pretty_unit -> the number unchanged (display units are C06\'s other harnesses)'),
+             (r'^Number::unit_to_string$', lambda ex, nc, a: 'unit text', 'Number::unit_to_string -> opaque text'))
+    bounds = ['bases 10, 16, 7; Digits::Default and Digits::FullInt; display-unit choice stubbed to the identity']
+    expect_classes = ['return']
+
+    def build(self, ex, I):
+        kind = ['rational', 'float', 'nan', 'inf'][ex.choose(4, 'value kind')]
+        v = I.real('v')
+        if kind == 'rational':
+            num = rational(v)
+        else:
+            num = floatnum(F64(v, kind == 'nan', kind == 'inf'))
+        n = number(num, dim({'m': (True, 1)}))
+        base = [10, 16, 7][ex.choose(3, 'base')]
+        dg = ['Default', 'FullInt'][ex.choose(2, 'digits mode')]
+        ex.env['printer_verdict'] = ex.choose(3, 'printer verdict: exact / approx / both')
+        ex.env['printer_args'] = None
+        reg = make_struct(ex, 'Registry', {'quantities': MapV()})
+        ctxv = make_struct(ex, 'Context', {'registry': reg, 'temporaries': MapV(), 'previous_result': none(ex)})
+        return [ref(n), ref(ctxv), base, variant(ex, 'Digits', dg)], {'v': v, 'kind': kind, 'base': base, 'dg': dg, 'n': n}
+
+    def post(self, ex, ctx, outcome):
+        p = deref_all(outcome[1])
+        f = ex.prog.src.structs['NumberParts']
+        k = ex.env['printer_verdict']
+        e, a = deref_all(p.fields[f.index('exact_value')]), deref_all(p.fields[f.index('approx_value')])
+        raw = deref_all(p.fields[f.index('raw_value')])
+        obs = [('raw_value is present (a %s value)' % ctx['kind'], raw.variant == 1)]
+        if raw.variant == 1:
+            val, d = number_parts(raw.fields[0])
+            kind, x = numeric_parts(val)
+            if ctx['kind'] == 'rational':
+                obs.append(('raw_value is the number itself', kind == 'rational' and n_eq(x, ctx['v'])))
+            else:
+                obs.append(('raw_value is the number itself', kind != 'rational'))
+        pa = ex.env.get('printer_args')
+        obs.append(('the printer is asked once, in the requested base and mode',
+                    pa is not None and is_conc(simp(pa[0])) and int(simp(pa[0])) == ctx['base'] and getattr(pa[1], 'vname', None) == ctx['dg']))
+        want_e, want_a = k in (0, 2), k in (1, 2)
+        obs.append(('the exact slot holds exactly what the printer called exact',
+                    (e.variant == 1) == want_e and (e.variant == 0 or deref_all(e.fields[0]) == 'PRINTER-EXACT')))
+        obs.append(('the approximate slot holds exactly what the printer called approximate',
+                    (a.variant == 1) == want_a and (a.variant == 0 or deref_all(a.fields[0]) == 'PRINTER-APPROX')))
+        return obs
+
+    def case(self, ctx, vals, label):
+        c = Harness.case(self, ctx, vals, label)
+        c['inputs'].update({'kind': ctx['kind'], 'base': ctx['base'], 'digits': ctx['dg']})
+        return c
+
+    PROBES = [('1/23 -> hex', 16), ('1/23 -> base 7', 7), ('1/3 -> hex', 16), ('(1/23) meter -> base 7 meter', 7), ('1/23', 10), ('22/7 -> digits -> hex', 16)]
+    NONFINITE = ['ln(0)', 'asin(2)', 'exp(1000)', '-exp(1000)']
+
+    def native(self, inputs, label):
+        return ([{'mode': 'query', 'text': t} for t, _ in self.PROBES] + [{'mode': 'query', 'text': t} for t in self.NONFINITE]
+                + [{'mode': 'query', 'save_previous_result': True, 'pre': ['7', 'ln(0)'], 'text': 'ans'}])
+
+    def judge(self, inputs, label, obs):
+        import re as _r
+        bad = []
+        for (t, base), o in zip(self.PROBES, obs):
+            if o.get('outcome') == 'panic' or o.get('render_panic'):
+                bad.append('`%s` panics' % t)
+                continue
+            j = o.get('json') or {}
+            parts = j.get('value') if j.get('type') == 'conversion' else j
+            raw = obs_number_json(o)
+            if not isinstance(parts, dict) or raw is None:
+                continue
+            ev, av = parts.get('exactValue'), parts.get('approxValue')
+            if ev is None or _r.match(r'^-?\d+/\d+$', ev):
+                continue
+            v = raw[0]
+            if t.startswith('(1/23) meter'):
+                v = Fraction(1, 23)
+            pr = numeral_problem(ev, True, v, base, sci=None)
+            if pr is not None:
+                bad.append('`%s` shows %s in the exact slot (%s): %s' % (t, ev, 'no approx. marker' if av is None else 'with an approximate companion', pr))
+        off = len(self.PROBES)
+        for t, o in zip(self.NONFINITE, obs[off:]):
+            j = o.get('json') or {}
+            if o.get('outcome') == 'ok' and j.get('type') == 'number' and not j.get('rawValue'):
+                bad.append('`%s` = %s carries no raw value' % (t, o.get('display')))
+        last = obs[-1]
+        if last.get('outcome') == 'ok' and 'Inf' not in str(last.get('display')):
+            bad.append('history [7; ln(0); ans] answers %s: `ans` is not the most recent numeric result' % last.get('display'))
+        return bool(bad), '; '.join(bad[:3]) or 'numerals in the exact slot denote the value in their base; non-finite results keep their raw value'
+
+
+_c05_prev5 = harnesses
+
+
+def harnesses(tier):   # noqa: F811
+    return _c05_prev5(tier) + [PartsCarryValue()]
